@@ -8,6 +8,7 @@ mod project;
 mod query;
 mod reads;
 mod roundtrip;
+mod sched;
 mod webanno;
 
 use apply::*;
@@ -131,6 +132,17 @@ fn main() {
     let style = IdStyle(std::env::var("VERIF_IDSTYLE").ok().and_then(|s| s.parse().ok()).unwrap_or(0));
     let r = match args.get(1).map(|s| s.as_str()) {
         Some("replay") => replay(&args[2], &args[3], style),
+        Some("conc") => {
+            // stamverif conc '<json {shape, ops, schedule}>'
+            let a: serde_json::Value = serde_json::from_str(&args[2]).expect("harness: conc args");
+            let dir = std::path::PathBuf::from(format!("/verif/work/conc_{}", std::process::id()));
+            std::fs::create_dir_all(&dir).unwrap();
+            let sch: Vec<usize> = a["schedule"].as_array().unwrap().iter().map(|x| x.as_u64().unwrap() as usize).collect();
+            let out = sched::run(&a["shape"], a["ops"].as_array().unwrap(), &sch, &dir);
+            let _ = std::fs::remove_dir_all(&dir);
+            println!("{}", out);
+            Ok(())
+        }
         _ => {
             eprintln!("usage: stamverif replay <behaviours.ndjson> <trace.ndjson>");
             std::process::exit(2);
